@@ -213,6 +213,7 @@ func runOp(rep *ev.Reporter, env *univ.Env, srv *drive.Server, name string, opSe
 			for pi, base := range []univ.SeedPlan{
 				{Seed: uint64(opSeed), MaxList: 3, NullPermille: 20},
 				{Seed: uint64(opSeed) + 1, MaxList: 3, ErrPermille: 120, NullPermille: 120, DirPermille: 100},
+				{Seed: uint64(opSeed) + 2, MaxList: 3, ErrPermille: 40, NullPermille: 40, NonFinitePermille: 300},
 			} {
 				for _, sm := range []int{0, 2, 3, 4} {
 					p := base
